@@ -89,6 +89,9 @@ class Scheduler:
         sync_preempts: int = 0,
         sync_odds: int = 8,
         stall_delays: tuple[float, ...] = (),
+        focus_funcs: Iterable[str] = (),
+        focus_preempts: int = 2,
+        focus_odds: int = 6,
     ) -> None:
         self.ch = ch
         self.log = log if log is not None else EventLog()
@@ -116,6 +119,12 @@ class Scheduler:
         # a long GC pause, a starved CPU) instead of being runnable again at once - without it a pre-empted thread always
         # resumes as soon as every other thread blocks, which no real scheduler promises
         self.stall_delays = tuple(stall_delays)
+        # focused pre-emption: inside the named functions of the traced files (critical sections that have NO lock, such as
+        # the shared-memory allocation table) a line may be a pre-emption point with odds 1:focus_odds while another
+        # thread is runnable, up to focus_preempts times per run
+        self.focus_funcs = frozenset(focus_funcs)
+        self.focus_left = focus_preempts if self.focus_funcs else 0
+        self.focus_odds = max(2, focus_odds)
         self.sync_odds = max(2, sync_odds)
         self.wall_limit = wall_limit
         self.abort = False
@@ -226,6 +235,12 @@ class Scheduler:
                 self._preempt(f"{frame.f_code.co_filename.rsplit('/', 1)[-1]}:{frame.f_lineno}")
             elif self.steps > self.max_steps:
                 self._cap()
+            elif self.focus_left > 0 and frame.f_code.co_name in self.focus_funcs and not self.over:
+                cur = self.current()
+                if cur is not None and any(t is not cur for t in self._runnable()) and self.ch.choose(self.focus_odds, "focus.preempt") == 1:
+                    self.focus_left -= 1
+                    self.ch.fault("sched.focus-preempt")
+                    self._preempt(f"{frame.f_code.co_name}:{frame.f_lineno}")
         return self._line_tracer
 
     # ------------------------------------------------------- core switching
